@@ -45,7 +45,8 @@ inductive Out where
 deriving Repr, DecidableEq
 
 def addSigned (a : Dec) (bneg : Bool) (b : Dec) : Out :=
-  if b.mant = 0 then .val a
+  if a.mant = 0 ∧ b.mant = 0 then .unknown
+  else if b.mant = 0 then .val a
   else if a.mant = 0 then .val ⟨bneg, b.mant, b.scale⟩
   else
     let s := if a.scale ≥ b.scale then a.scale else b.scale
